@@ -54,4 +54,50 @@ theorem occurs_of_tail {n t : Bytes} (b : UInt8) (h : Occurs n t) : Occurs n (b 
   obtain ⟨pre, post, rfl⟩ := h
   exact ⟨b :: pre, post, by simp⟩
 
+/-- `findSub` returns an occurrence -/
+theorem findSub_some (n h pre post : Bytes) (hf : findSub n h = some (pre, post)) :
+    h = pre ++ n ++ post := by
+  induction h generalizing pre post with
+  | nil =>
+    simp only [findSub] at hf
+    split at hf
+    · next hn => cases hf; cases n <;> simp_all
+    · cases hf
+  | cons b r ih =>
+    simp only [findSub] at hf
+    split at hf
+    · next rest hs =>
+      cases hf
+      have := (stripPrefix?_eq_some _ _ _).1 hs
+      simpa using this
+    · split at hf
+      · next pre' post' hr =>
+        cases hf
+        have := ih pre' post hr
+        simp [this]
+      · cases hf
+
+theorem findSub_none (n h : Bytes) (hn : n ≠ []) (hf : findSub n h = none) : ¬ Occurs n h := by
+  induction h with
+  | nil =>
+    rintro ⟨pre, post, e⟩
+    have := congrArg List.length e
+    simp at this
+    exact hn (List.eq_nil_of_length_eq_zero (by omega))
+  | cons b r ih =>
+    simp only [findSub] at hf
+    split at hf
+    · cases hf
+    · next hs =>
+      split at hf
+      · cases hf
+      · next hr =>
+        intro ho
+        rcases occurs_cons ho with h1 | h1
+        · obtain ⟨t, e⟩ := (startsWith_iff _ _).1 h1
+          rw [e, stripPrefix?_append] at hs
+          cases hs
+        · exact ih hr h1
+
+
 end Frrs
